@@ -1,5 +1,5 @@
 (* Executable entry points compared with the implementation by ./check C13. *)
-From ZV Require Import Prelude Block CodecPb Dec BlockAccept.
+From ZV Require Import Prelude GoSem Abi Block CodecPb Dec BlockAccept AbiCanon.
 Open Scope Z_scope.
 
 Definition body_eqb (a b : ABody) : bool :=
@@ -72,3 +72,8 @@ Definition accept_out := option AB.
 Definition accept_user_run (i : accept_in) : accept_out :=
   let '(x, h, s, a, r, p) := i in accept_user_obs x h s a r p.
 Definition accept_out_eqb : accept_out -> accept_out -> bool := option_eqb ab_eqb.
+
+(* call data of an embedded method (selector, argument types): the canonical packing of what it decodes to
+   (None: not decodable) = abi.PackMethod(name, Unpack(data)...) of the implementation *)
+Definition abi_canon_run (i : bytes * list ty * bytes) : option bytes :=
+  let '(sel, tys, data) := i in repack sel tys data.
